@@ -267,3 +267,86 @@ def run(hist: dict) -> dict:
                                "entry": entry_of(c["exception"]) if c.get("exception") else "?", "text": str(c.get("exception"))[:200]}
                               for c in loop.exc_contexts]
     return obs
+
+
+# ---- file-sourced gateways (a packet log as input, as the CLI's parse mode and Home Assistant's replay use) -------------------------
+def stamp_frames(frames: list[str], gaps: list[float]) -> list[tuple[str, str]]:
+    """[(iso timestamp, '045 <frame>')] with the given gaps (cycled) between consecutive lines; strictly increasing microsecond stamps."""
+    from datetime import datetime, timedelta
+
+    t = datetime(2024, 3, 1, 12, 0, 0, 100)
+    out = []
+    for i, fr in enumerate(frames):
+        out.append((t.isoformat(timespec="microseconds"), f"045 {fr}"))
+        t += timedelta(seconds=max(gaps[i % len(gaps)], 0.000001)) if gaps else timedelta(seconds=1)
+    return out
+
+
+def _wrap(text: str) -> Any:
+    import io
+
+    return io.TextIOWrapper(io.BytesIO(text.encode()), encoding="utf-8")
+
+
+async def file_history(loop: vclock.VLoop, hist: dict) -> dict:
+    """Gateway A replays hist['frames'] from a packet log (its clock = the newest packet read); snapshot; a FRESH file-sourced gateway B
+    (an empty log: it never reads a packet of its own) is started with that snapshot; views / snapshot / a second restore on B."""
+    import random
+
+    from ramses_rf import Gateway
+
+    random.seed(hist.get("rnd", 1))
+    vclock.install_dt()
+    cfg = {"disable_discovery": True, "enable_eavesdrop": bool(hist.get("eavesdrop"))}
+    gaps = [(hist.get("gaps") or [0.05])[i % len(hist.get("gaps") or [0.05])] for i in range(len(hist["frames"]))]
+    if hist.get("last_gap") and len(gaps) >= 2:
+        gaps[-2] = hist["last_gap"]  # the gap in front of the last line
+    lines = stamp_frames(hist["frames"], gaps)
+    inc = bool(hist.get("include_expired"))
+    res: dict[str, Any] = {"a_view_failures": [], "b_view_failures": [], "lines": lines[-1:]}
+    gwy_a = Gateway(None, input_file=_wrap("".join(f"{ts} {ln}\n" for ts, ln in lines)), config=dict(cfg), loop=loop)
+    gwy_b = None
+    try:
+        await gwy_a.start()
+        await gwy_a._protocol.wait_for_connection_lost(timeout=3600)
+        await vclock.quiesce()
+        res["a_view_failures"] = read_views(gwy_a)
+        try:
+            schema_a, pkts_a = gwy_a.get_state(include_expired=inc)
+        except Exception as e:  # noqa: BLE001
+            res["a_snapshot_raised"] = {"exc": type(e).__name__, "site": site_of(e), "text": str(e)[:200]}
+            return res
+        res["pkts_a"] = dict(pkts_a)
+        res["schema_a"] = schema_a
+        gwy_b = Gateway(None, input_file=_wrap(""), config=dict(cfg), loop=loop, **{k: v for k, v in schema_a.items()})
+        try:
+            await gwy_b.start(cached_packets=dict(pkts_a))
+            await vclock.quiesce()
+        except Exception as e:  # noqa: BLE001
+            res["b_start_raised"] = {"exc": type(e).__name__, "site": site_of(e), "text": str(e)[:200]}
+            return res
+        res["b_view_failures"] = read_views(gwy_b)
+        try:
+            schema_b, pkts_b = gwy_b.get_state(include_expired=inc)
+            res["pkts_b"], res["schema_b"] = dict(pkts_b), schema_b
+            before = engine_state(gwy_b)
+            await gwy_b._restore_cached_packets(dict(pkts_a))
+            await vclock.quiesce()
+            res["b_engine"] = (before, engine_state(gwy_b))
+            res["pkts_b2"] = dict(gwy_b.get_state(include_expired=inc)[1])
+            res["b_view_failures"] += read_views(gwy_b)
+        except Exception as e:  # noqa: BLE001
+            res["b_snapshot_raised"] = {"exc": type(e).__name__, "site": site_of(e), "text": str(e)[:200]}
+    finally:
+        for g in (gwy_a, gwy_b):
+            if g is not None:
+                await stack.stop_gateway(g)
+    return res
+
+
+def run_file(hist: dict) -> dict:
+    res, loop = vclock.run(file_history, hist)
+    res["loop_exceptions"] = [{"exc": type(c.get("exception")).__name__ if c.get("exception") else None,
+                               "site": site_of(c["exception"]) if c.get("exception") else "?", "text": str(c.get("exception"))[:200]}
+                              for c in loop.exc_contexts]
+    return res
